@@ -9,8 +9,11 @@ from ..core import Prop
 INITIALS = ["core"] * 12 + ["small"] * 3 + ["none"] * 2 + ["corens"]
 
 
-def parse_case(sigs, argv, initial="core", ign=False):
-    return {"kind": "parse", "sigs": sigs, "initial": initial, "ign": ign, "argv": list(argv)}
+def parse_case(sigs, argv, initial="core", ign=False, noctx=False):
+    c = {"kind": "parse", "sigs": sigs, "initial": initial, "ign": ign, "argv": list(argv)}
+    if noctx:
+        c["noctx"] = True       # Parser(contexts=()): the shape of Program's core pass
+    return c
 
 
 # one fixed small signature for the exhaustive small-scope enumerator
@@ -86,7 +89,10 @@ class C07(Prop):
                 if any(pc.has_digit_hazard(t) for t in argv):
                     continue
                 ign = rng.random() < 0.15
-                yield parse_case(sigs, argv, initial, ign)
+                noctx = rng.random() < 0.08
+                if noctx:
+                    ign = rng.random() < 0.75
+                yield parse_case(sigs, argv, initial, ign, noctx)
                 produced += 1
                 if produced >= n:
                     break
@@ -104,7 +110,8 @@ class C07(Prop):
                 return {"ok": pc.spec_of_ctx(pc.initial_context(case["which"]))}
             except Exception as e:  # noqa
                 return {"err": type(e).__name__}
-        return pc.run_parse(case["sigs"], case["argv"], case["initial"], case["ign"])
+        return pc.run_parse(case["sigs"], case["argv"], case["initial"], case["ign"],
+                            noctx=case.get("noctx", False))
 
     def to_coq(self, case, obs):
         if case["kind"] == "table":
@@ -115,14 +122,14 @@ class C07(Prop):
                 except Exception:
                     o = "None"
             return "(TableCase %s %s)" % (pc.initsel(case["which"]), o)
-        specs = pc.ctx_specs(case["sigs"])
+        specs = [] if case.get("noctx") else pc.ctx_specs(case["sigs"])
         return "(ParseCase %s %s %s %s %s)" % (
             ct.lst([pc.ctxspec(c) for c in specs]), pc.initsel(case["initial"]), ct.b(case["ign"]),
             ct.strs(case["argv"]), ct.result(obs, pc.pobs))
 
     # ------------------------------------------------------------------
     def _flagish(self, case):
-        specs = pc.ctx_specs(case["sigs"])
+        specs = [] if case.get("noctx") else pc.ctx_specs(case["sigs"])
         init_spec = pc.initial_spec(case["initial"])
         allfl = set()
         for c in specs + ([init_spec] if init_spec else []):
@@ -148,20 +155,36 @@ class C07(Prop):
     def finding_of(self, case, obs):
         if case["kind"] != "parse":
             return None
-        specs = pc.ctx_specs(case["sigs"])
+        specs = [] if case.get("noctx") else pc.ctx_specs(case["sigs"])
         init_spec = pc.initial_spec(case["initial"])
         # (F-C07a, ValueError from int(), was repaired in /repo by 401bc73: a ValueError
         #  escaping parse_argv is no longer attributable to anything -> VIOLATION)
         # (F-C07b, AttributeError without initial context, was repaired by e36c9e6: no longer
         #  attributable -> VIOLATION)
         if "ok" in obs:
+            # F-C07c / F-C07d: the failing clause must be B2 ("value-requiring flag left without
+            # a value"): the outcome class is fine (A), no returned context lacks a positional
+            # (B1), and the last body token is literally a value flag of the last context.
             o = obs["ok"]
             body = pc.body_of(case["argv"])
+            for name, kw in o["ctxs"]:
+                c = pc.spec_by_name(specs, init_spec, name)
+                if c is None:
+                    continue
+                vals = dict((k, v) for k, v in kw)
+                for a in c["args"]:
+                    if a["positional"] and vals.get(a["attr_name"] or a["names"][0], 0) is None:
+                        return None
             if body and o["ctxs"] and not o["unparsed"]:
                 c = pc.spec_by_name(specs, init_spec, o["ctxs"][-1][0])
                 a = pc.arg_of_flag(c, body[-1]) if c else None
                 if a and pc.takes_value(a) and not a["optional"]:
-                    return "F-C07c" if a["kind"] == "KList" else "F-C07d"
+                    if a["kind"] == "KList":
+                        return "F-C07c"
+                    # F-C07d: the argument already holds a value (earlier flag or positional)
+                    val = dict((k, v) for k, v in o["ctxs"][-1][1]).get(a["attr_name"] or a["names"][0])
+                    if val is not None:
+                        return "F-C07d"
         return None
 
     def shrink_candidates(self, case):
@@ -224,12 +247,14 @@ class C07(Prop):
         for _ in range(n):
             sigs = pc.gen_sigs(rng)
             specs = pc.ctx_specs(sigs)
-            initial = rng.choice(["core", "core", "small"])
+            initial = rng.choice(["core", "core", "small", "none"])
+            noctx = initial != "none" and rng.random() < 0.25
             init_spec = pc.initial_spec(initial)
             alpha = pc.alphabet(specs, init_spec, rng)
             argv = pc.mutate_line(rng, pc.spell_line(rng, specs, init_spec), alpha)
             other = pc.mutate_line(rng, pc.spell_line(rng, specs, init_spec), alpha)
-            parser = Parser(contexts=pc.contexts_of(sigs), initial=pc.initial_context(initial))
+            parser = Parser(contexts=() if noctx else pc.contexts_of(sigs),
+                            initial=pc.initial_context(initial), ignore_unknown=noctx or rng.random() < 0.2)
             before = pc.snapshot_parser(parser)
             a0 = list(argv)
             r1 = attempt(parser, argv)
@@ -248,7 +273,7 @@ class C07(Prop):
                     what = "parser contexts/initial modified after repeated parses"
             evaluations += 1
             if what:
-                failures.append({"case": parse_case(sigs, a0, initial), "what": what})
+                failures.append({"case": parse_case(sigs, a0, initial, parser.ignore_unknown, noctx), "what": what})
                 break
         return [{"name": "purity", "evaluations": evaluations, "failures": failures,
                  "note": "snapshot test: argv, Parser.contexts, Parser.initial deep-compared before/after; "
